@@ -288,7 +288,7 @@ theorem C04_readline_is_cursor (cfg : Cfg) (hb : 1 ≤ cfg.bufsize) (hm : cfg.ma
     · simp [over, hm] at h
     · simp [hf] at h
   | ok x =>
-    obtain ⟨e1, e2, _, e4, _⟩ := ok1 x rfl
+    obtain ⟨e1, e2, _, e4, _, _⟩ := ok1 x rfl
     refine ⟨s', ?_, ?_, i1, en1 he, hfa⟩
     · simp only [Src.readline]; rw [e1]; simp
     · simp only [Src.readline]
